@@ -377,6 +377,25 @@ func (c *flowCtx) containerWrites(v ssa.Value) APSet {
 		case ssa.CallInstruction:
 			// the container is handed to a call that may fill it (copy(dst, src), binary.PutUint64(b, n), io.ReadFull...)
 			out.add(c.filledBy(u, v), "")
+		case *ssa.Store:
+			// the container is kept in a variable (captured by a closure): writes through later loads of that variable
+			if u.Val == v {
+				if al, ok := u.Addr.(*ssa.Alloc); ok && !c.visit[al] {
+					c.visit[al] = true
+					for _, r2 := range *al.Referrers() {
+						if ld, ok := r2.(*ssa.UnOp); ok && ld.Op == token.MUL && !c.visit[ld] {
+							c.visit[ld] = true
+							out.add(c.containerWrites(ld), "")
+							delete(c.visit, ld)
+						}
+					}
+					delete(c.visit, al)
+				}
+			}
+		case *ssa.MakeInterface:
+			if u.X == v {
+				out.add(c.containerWrites(u), "")
+			}
 		}
 	}
 	return out
@@ -507,6 +526,13 @@ func (c *flowCtx) allocContent(al *ssa.Alloc, field int) APSet {
 		case ssa.CallInstruction:
 			// the address itself is passed to a call: out-parameter / mutating method
 			out.add(c.outParam(u, al), "")
+		case *ssa.MakeInterface:
+			// &x boxed into an interface and handed to a call (json.Unmarshal(bz, &x), cdc.UnpackAny(any, &x))
+			for _, r2 := range *u.Referrers() {
+				if ci, ok := r2.(ssa.CallInstruction); ok {
+					out.add(c.outParam(ci, u), "")
+				}
+			}
 		case *ssa.MakeClosure:
 			// captured by a closure that may assign it
 			fn := u.Fn.(*ssa.Function)
